@@ -75,6 +75,7 @@ def r2(ctx):
             defs = [v for s, v in util.assignments_to(fi.node, name) if isinstance(v, ast.AST)]
             for v in defs:
                 n += 1
+                v = util.expand_single_defs(fi.node, v, keep=("read", "extracted_read", "vcf_indices"))
                 lf = linear(v)
                 if name == "begin":
                     ok = lf is not None and len(lf) == 1 and list(lf.values()) == [1] and list(lf)[0].startswith("vcf_indices.get(") and list(lf)[0].endswith(".getPosition(0))")
@@ -254,8 +255,16 @@ def r4(ctx):
     ctx.ob(cp.qual, "queue-items-are-the-given-indices", ok, cp.loc(), "every given index is pushed as item" if ok else "queue construction changed")
     sr = ctx.func(PH + ".select_reads")
     rets = [n for n in walk_function(sr.node) if isinstance(n, ast.Return)]
-    full = u(util.expand_single_defs(sr.node, rets[0].value)) if len(rets) == 1 and rets[0].value is not None else None
-    ok = full == "readset.subset(readselection(readset, max_coverage, preferred_source_ids))"
+    fulle = util.expand_single_defs(sr.node, rets[0].value) if len(rets) == 1 and rets[0].value is not None else None
+    ok = False
+    if isinstance(fulle, ast.Call) and u(fulle.func) == "readset.subset" and len(fulle.args) == 1:
+        # ReadSet.subset collects the indices in an ordered C++ set: order and duplicates of the argument do not matter
+        inner = util.strip_order_wrappers(fulle.args[0])
+        rsel = ctx.func(RS + ".readselection")
+        if isinstance(inner, ast.Call) and u(inner.func) == "readselection":
+            b = util.bound_args(inner, rsel.node, skip_self=False)
+            rp = util.params_of(rsel.node)
+            ok = b is not None and u(b.get(rp[0])) == "readset" and u(b.get("max_cov")) == "max_coverage" and u(b.get("preferred_source_ids")) == "preferred_source_ids" and u(b.get("bridging")) == "True"
     ctx.ob(sr.qual, "returns-subset-of-the-input", ok, sr.loc(), "select_reads returns readset.subset(readselection(readset, max_coverage, ...))" if ok else "select_reads does not return the subset of its input chosen by readselection with the given cap")
 
 
